@@ -18,7 +18,7 @@ VARIABLES hist,         \* the commands issued so far
 
 hvars == <<vars, hist, act>>
 
-ActName(cmd) == IF cmd.op = "Cascade" THEN (IF StaleAbove(data, cmd.d) THEN "CascadeLeavesOrphans" ELSE "CascadeClean")
+ActName(cmd) == IF cmd.op = "Cascade" THEN (IF StaleAbove(data, cmd.d) THEN "CascadeRemovesOrphans" ELSE "CascadeClean")
                 ELSE IF cmd.op = "Transform" THEN (IF StaleOut(out, data, cmd.d) THEN "TransformLeavesStale" ELSE "TransformClean")
                 ELSE cmd.op
 Step(cmd) == Do(cmd) /\ hist' = Append(hist, cmd) /\ act' = ActName(cmd)
@@ -53,10 +53,12 @@ Record == [hist |-> hist, act |-> act,
            wtml |-> [ex |-> wtml.ex, levels |-> wtml.levels, ftype |-> wtml.ftype,
                      url |-> IF wtml.ex THEN W!Template("L/Y/YX", Ext(wtml.ftype)) ELSE <<>>],
            bld |-> [fmt |-> bld.fmt, levels |-> bld.levels],
-           ghost |-> [base |-> base, cons |-> cons, fresh |-> fresh, removed |-> removed, rebased |-> rebased, cur |-> wtml.cur],
+           ghost |-> [base |-> base, cons |-> cons, fresh |-> fresh, removed |-> removed, rebased |-> rebased, pruned |-> pruned, cur |-> wtml.cur],
+           \* existing tiles none of whose children exists, above the deepest level (the next cascade that visits one removes it)
+           orphans |-> SelectSeq(Order, LAMBDA p : p[1] < MaxDepth /\ Orphan(p)),
            feed |-> Feed,
            \* truth values of the statements the code does not keep (a FALSE is TLC's witness that the statement is refuted)
-           ideal |-> [NoOrphanAfterCascade |-> NoOrphanAfterCascade, AlwaysIdealAfterCascade |-> AlwaysIdealAfterCascade,
+           ideal |-> [CascadePrunesOnlyAfterShrink |-> CascadePrunesOnlyAfterShrink, NoShrinkNoStaleOutput |-> NoShrinkNoStaleOutput,
                       NothingDeeperThanBase |-> NothingDeeperThanBase, NoStaleOutput |-> NoStaleOutput,
                       WtmlAlwaysDeepest |-> WtmlAlwaysDeepest, TransformCommutesWithMerge |-> TransformCommutesWithMerge]]
 Emit == PrintT(<<"S", ToJson(Record)>>)
